@@ -38,6 +38,7 @@ def validate(ctx, traces, tag, kind):
         return {}
     wd = tlc.workdir("c18v_" + tag)
     shards = tlc.shard(traces, tlc.NCPU)
+    heap = "2g" if len(traces) < 40000 else "3g"
     jobs = []
     for i, sh in enumerate(shards):
         p = os.path.join(wd, "tr%d.ndjson" % i)
@@ -46,11 +47,11 @@ def validate(ctx, traces, tag, kind):
 
     def one(a):
         try:
-            return tlc.run("CfgTrace", "CfgTrace.cfg", workers=1, env={"TRACE_FILE": a[0]}, tag=a[1], timeout=3000, xmx="2g")
+            return tlc.run("CfgTrace", "CfgTrace.cfg", workers=1, env={"TRACE_FILE": a[0]}, tag=a[1], timeout=3000, xmx=heap)
         except tlc.MachineryError as ex:      # one retry: a JVM that could not start on a saturated machine
             ctx.count("validation_shards_retried")
             ctx.note("validation_retry_reason", str(ex)[-400:])
-            return tlc.run("CfgTrace", "CfgTrace.cfg", workers=1, env={"TRACE_FILE": a[0]}, tag=a[1] + "r", timeout=3000, xmx="2g")
+            return tlc.run("CfgTrace", "CfgTrace.cfg", workers=1, env={"TRACE_FILE": a[0]}, tag=a[1] + "r", timeout=3000, xmx=heap)
 
     with mp.pool.ThreadPool(len(jobs)) as tp:
         results = tp.map(one, jobs)
@@ -145,10 +146,10 @@ def generators(quick):
                 ("CfgSimD.cfg", "simd", c18.G_DELAY, "one", "num=15", 1)]
     return [("CfgGen_unit.cfg", "unit", c18.G_DELAY + c18.G_FIXED + c18.G_VAR[:2], "one", None, 1),
             ("CfgGen_var.cfg", "var", c18.G_VAR, "one", None, 1),
-            ("CfgGen_links.cfg", "links", allh, "one", None, 1),
-            ("CfgGen_wide.cfg", "wide", c18.G_VAR[:3] + c18.G_FIXED[:2], "one", None, 1),
-            ("CfgSim.cfg", "sim", c18.G_VAR, "one", "num=600", 1),
-            ("CfgSimD.cfg", "simd", c18.G_DELAY, "one", "num=600", 1)]
+            ("CfgGen_links.cfg", "links", allh, "one", None, 4),
+            ("CfgGen_wide.cfg", "wide", c18.G_VAR[:3] + c18.G_FIXED[:2], "one", None, 8),
+            ("CfgSim.cfg", "sim", c18.G_VAR, "one", "num=300", 1),
+            ("CfgSimD.cfg", "simd", c18.G_DELAY, "one", "num=300", 1)]
 
 
 def sweep_jobs(ctx, quick):
@@ -230,6 +231,7 @@ def run(ctx):
     if os.environ.get("C18_SKIP_MODEL"):    # development aid (mutation runs): the design checks do not touch amoco
         mcfgs, rejects = [], []
         ctx.note("development_run_without_model_checks", True)
+        ctx.write_evidence = lambda level="model_checking": None     # a partial run leaves the evidence file alone
     gens = generators(quick)
     sjobs, hjobs = sweep_jobs(ctx, quick), history_jobs(ctx, quick)
     if os.environ.get("C18_FAST"):          # development aid (mutation runs): a SUBSET of the traces of the full run
@@ -241,8 +243,14 @@ def run(ctx):
     wd = tlc.workdir("c18g")
     # Python drivers first (fork before any thread exists)
     pool = mp.Pool(tlc.NCPU)
-    a_sweeps = pool.map_async(c18.sweep_job, sjobs, chunksize=1)
-    a_hist = pool.map_async(c18.history_job, hjobs, chunksize=1)
+    # the instruction class tables (concretisation), once per ISA
+    tables = {}
+    for isa, tab, err in pool.map(c18.table_job, [(isa, ctx.seed) for isa in sorted(c18.ISAS)], chunksize=1):
+        if tab is None:
+            raise tlc.MachineryError("class table of %s: %s" % (isa, err))
+        tables[isa] = tab
+    a_sweeps = pool.map_async(c18.sweep_job, [j + ({j[0]: tables[j[0]]},) for j in sjobs], chunksize=1)
+    a_hist = pool.map_async(c18.history_job, [j + ({j[0]: tables[j[0]]},) for j in hjobs], chunksize=1)
     big = max(2, tlc.NCPU // 4)
 
     probe_path = os.path.join(wd, "probe.ndjson")
@@ -258,7 +266,8 @@ def run(ctx):
             return tlc.run("Cfg", cfg, tag="c18r_" + cfg[:-4], timeout=3400, expect_violation=True, workers=1, xmx="1g")
         tag, sim = arg
         return tlc.run("Cfg", cfg, simulate=sim, depth=30 if sim else None, seed=ctx.seed if sim else None,
-                       spool=os.path.join(wd, tag + ".spool"), tag="c18g_" + tag, timeout=3400, workers=big, xmx="4g")
+                       spool=os.path.join(wd, tag + ".spool"), tag="c18g_" + tag, timeout=3400,
+                       workers=2 if quick else big, xmx="4g")
 
     jobs = [("M", c, None) for c in mcfgs] + [("G", g[0], (g[1], g[4])) for g in gens] + [("R", c, None) for c, _ in rejects]
     jobs.append(("P", "CfgTrace.cfg", None))
@@ -281,7 +290,8 @@ def run(ctx):
         spool = os.path.join(wd, tag + ".spool")
         offset = ctx.seed % stride if stride > 1 else 0
         for ci, (lo, hi) in enumerate(tlc.spool_chunks(spool, 16)):
-            rjobs.append((spool, lo, hi, ctx.seed, stride, offset, hosts, which, 100000000 * (gi + 1) + 1000000 * ci, tag))
+            rjobs.append((spool, lo, hi, ctx.seed, stride, offset, hosts, which, 100000000 * (gi + 1) + 1000000 * ci, tag,
+                          dict((h, tables[h]) for h, _ in hosts)))
     a_replay = pool.map_async(c18.replay_chunk, rjobs, chunksize=1)
     outs_s, outs_h, outs_r = a_sweeps.get(), a_hist.get(), a_replay.get()
     pool.close()
@@ -291,7 +301,7 @@ def run(ctx):
     # generated behaviours
     nb = {}
     for job, o in zip(rjobs, outs_r):
-        tag = job[-1]
+        tag = job[9]
         st = o["stats"]
         nb[tag] = nb.get(tag, 0) + st["behaviours"]
         ctx.count("behaviours_without_host_isa", st["unhosted"])
